@@ -7,7 +7,7 @@ history correspondence (Tie B): the same op lines run on the Lean driver and on 
 from vlib import histcheck
 
 MODULE = "TriompheModel.Props.C04"
-EXTRA = ["TriompheModel.Proofs.HistInv", "TriompheModel.Props.CmpRead", "TriompheModel.Props.TraitCensus", "TriompheModel.Props.Monitor", "TriompheModel.Props.C04Sched"]
+EXTRA = ["TriompheModel.Proofs.HistInv", "TriompheModel.Props.CmpRead", "TriompheModel.Props.TraitCensus", "TriompheModel.Props.Monitor", "TriompheModel.Props.C04Sched", "TriompheModel.Props.ApiShape"]
 TAGS = ['C04']
 WEIGHTS = {'clone': 22, 'cloneArc': 12, 'conv': 20, 'cb': 16, 'drop': 12, 'cmp': 12}
 
